@@ -608,6 +608,9 @@ func (e *vfEnv) step(i int, op *vfWOp) *vlib.Failure {
 		if op.Int {
 			b = 1
 		}
+		if op.N >= 60 {
+			e.c.Label("bulk-next(60..140 addresses)")
+		}
 		mas, err := w.kmc.NextAddresses(id, op.Int, uint32(op.N))
 		if mk == nil {
 			if err == nil {
@@ -1291,6 +1294,7 @@ type vfGenCfg struct {
 	Sign       bool
 	NoRndPass  bool // only passphrases from the pools (C04: random ones could coincide with hex text)
 	NoNilSeed  bool // always pass an explicit seed
+	Bulk       int  // >0: one in Bulk "next" operations asks for 60-140 addresses at once (the code sets no limit on the count)
 }
 
 func vfGenSeed(t *rapid.T, noNil bool) []byte {
@@ -1393,6 +1397,10 @@ func vfGenWOp(t *rapid.T, cfg *vfGenCfg) vfWOp {
 		op.Ks = rapid.IntRange(0, 3).Draw(t, "ks")
 		op.Int = rapid.Bool().Draw(t, "internal")
 		op.N = rapid.IntRange(0, 4).Draw(t, "n")
+		if cfg.Bulk > 0 && rapid.IntRange(0, cfg.Bulk-1).Draw(t, "bulk") == 0 {
+			// child index >= 95 puts every byte value into the little-endian index part of the store keys
+			op.N = rapid.IntRange(60, 140).Draw(t, "nBulk")
+		}
 	case "remark":
 		op.Ks = rapid.IntRange(0, 3).Draw(t, "ks")
 		if rapid.IntRange(0, 4).Draw(t, "rndRemark") == 0 {
